@@ -45,7 +45,7 @@ META_COMMON = {
     ],
     "assumptions": [
         "all six codecs are concretised by the harness (H264/H265 parameter sets and slices, VP9 frame headers, AV1 OBUs built from the specs and self-checked against mediacommon's parsers at start-up); H264 and H265 DTS extraction is exercised with reordering, the abstract dts is what the real extractor returns (units it rejects are not generated)",
-        "Track.ClockRate equals the init timescale of the codec (the documented usage)",
+        "Track.ClockRate equals the init timescale of the codec (the documented usage; DESIGN.md 12.3, observation O4): video tracks of the fMP4 variants always run at 90 kHz, MPEG-TS video tracks (no init, the segmenter rescales to 90 kHz) also at 1 MHz, 10 MHz and 1 GHz",
         "observations are taken between Write calls (one writer; the concurrent layer is C06-C08)",
     ],
 }
